@@ -471,7 +471,11 @@ where
         self.validate()?;
 
         let packet_id_buf = self.packet_id_buf.unwrap();
-        let remaining_length = VariableByteInteger::from_u32(2).unwrap(); // packet_id(2)
+        // packet_id only: 2 bytes for u16 identifiers, 4 for u32
+        let remaining_length = VariableByteInteger::from_u32(
+            core::mem::size_of::<<PacketIdType as IsPacketId>::Buffer>() as u32,
+        )
+        .unwrap();
 
         Ok(GenericUnsuback {
             fixed_header: [FixedHeader::Unsuback.as_u8()],
